@@ -3,6 +3,7 @@ package main
 import (
 	"fmt"
 	"go/ast"
+	"go/constant"
 	"go/token"
 	"go/types"
 	"sort"
@@ -312,10 +313,15 @@ func c18r2(c *RC) {
 				if other == to {
 					other = from.Succs[1]
 				}
-				// the edge is a passing edge if the *other* edge panics
+				// the edge is a passing edge if the *other* edge panics and is the
+				// edge taken when the check has failed (the condition is evaluated
+				// with the check's atom set to "failed", other atoms unknown)
 				if panics(other) && !panics(to) {
 					for _, nm := range names {
-						cur.passed[nm] = true
+						vf, known := c18failValue(fn.Pkg, cond, nm, cur.bind)
+						if known && other == from.Succs[c18edge(vf)] {
+							cur.passed[nm] = true
+						}
 					}
 				}
 				return encode(cur), false
@@ -346,7 +352,10 @@ func c18r2(c *RC) {
 						return true
 					})
 					if mentions && (panics(b.Succs[0]) != panics(b.Succs[1])) {
-						localOK = true
+						vf, known := c18failValue(fn.Pkg, cond, r, nil)
+						if known && panics(b.Succs[c18edge(vf)]) {
+							localOK = true
+						}
 					}
 				}
 				onPath := true
@@ -791,9 +800,81 @@ func c18assertingHelpers(pr *Prog) map[string][]string {
 				}
 			}
 			if noret {
-				out[fn.QName()] = append(out[fn.QName()], names...)
+				bind := map[string]string{}
+				if as, ok := ifs.Init.(*ast.AssignStmt); ok && len(as.Rhs) == 1 {
+					if k, ok := ast.Unparen(as.Rhs[0]).(*ast.CallExpr); ok {
+						if nm, ok := c18checks[fn.Pkg.CalleeName(k)]; ok {
+							if id, ok := as.Lhs[len(as.Lhs)-1].(*ast.Ident); ok {
+								bind[id.Name] = nm
+							}
+						}
+					}
+				}
+				for _, nm := range names {
+					// the panicking body must be entered when the check has failed
+					if vf, known := c18failValue(fn.Pkg, ifs.Cond, nm, bind); known && vf {
+						out[fn.QName()] = append(out[fn.QName()], nm)
+					}
+				}
 			}
 		}
 	}
 	return out
+}
+
+// c18edge: index of the successor taken when a branch condition has value v
+// (go/cfg puts the true edge first).
+func c18edge(v bool) int {
+	if v {
+		return 0
+	}
+	return 1
+}
+
+// c18failValue evaluates a branch condition under the assumption that schema
+// check nm has failed, every other atom being unknown (Kleene logic): a direct
+// call of the check is false, a boolean bound to its outcome (`_, ok := ...`)
+// is false, an error bound to its outcome is non-nil.  known == false means
+// the failure of the check alone does not decide the branch.
+func c18failValue(pk *Pkg, cond ast.Expr, nm string, bind map[string]string) (bool, bool) {
+	var atom func(e ast.Expr) (bool, bool)
+	atom = func(e ast.Expr) (bool, bool) {
+		e = ast.Unparen(e)
+		// X == true, X != false, ... (either operand order)
+		if be, ok := e.(*ast.BinaryExpr); ok && (be.Op == token.EQL || be.Op == token.NEQ) {
+			l, r := be.X, be.Y
+			if tv := pk.Info.Types[l]; tv.Value != nil && tv.Value.Kind() == constant.Bool {
+				l, r = r, l
+			}
+			if tv := pk.Info.Types[r]; tv.Value != nil && tv.Value.Kind() == constant.Bool {
+				v, known := evalCond3(l, atom)
+				if !known {
+					return false, false
+				}
+				return (v == constant.BoolVal(tv.Value)) == (be.Op == token.EQL), true
+			}
+		}
+		switch x := e.(type) {
+		case *ast.CallExpr:
+			if c18checks[pk.CalleeName(x)] == nm {
+				return false, true
+			}
+		case *ast.Ident:
+			if bind[x.Name] == nm {
+				if t := pk.Info.TypeOf(x); t != nil {
+					if b, ok := t.Underlying().(*types.Basic); ok && b.Kind() == types.Bool {
+						return false, true
+					}
+				}
+			}
+		case *ast.BinaryExpr:
+			if x.Op == token.EQL || x.Op == token.NEQ {
+				if v, nonNil, ok := nilTest(x); ok && bind[v] == nm {
+					return nonNil, true
+				}
+			}
+		}
+		return false, false
+	}
+	return evalCond3(cond, atom)
 }
